@@ -22,6 +22,13 @@ def enumRange (s e : Int) : List Int := iota s (e + 1 - s).toNat
 /-- position reached from offset `o` in a cycle of length `size` after moving by `n` (either sign) -/
 def cycOffset (size o n : Int) : Int := (o + n) % size
 
+/-- net displacement of a history of iterator operations -/
+def cycNet : List CycOp → Int
+  | [] => 0
+  | .inc :: os => 1 + cycNet os
+  | .dec :: os => -1 + cycNet os
+  | .adv n :: os => n + cycNet os
+
 def manhattan (p q : Pos) : Nat := (p.x - q.x).natAbs + (p.y - q.y).natAbs
 def chebyshev (p q : Pos) : Nat := max (p.x - q.x).natAbs (p.y - q.y).natAbs
 
